@@ -60,7 +60,6 @@ pub fn check_c14(ctx: &mut Ctx, cfg: &Cfg, how: How) {
     let Cfg::Compound(members) = cfg else { return };
     ctx.eval();
     let case = || cfg_case("c14", cfg, how);
-    let viol = repr::violations(cfg);
     ctx.class_dyn(format!("c14:members={}", match members.len() { 0 => "0", 1 => "1", 2..=4 => "2-4", _ => ">=5" }));
     for (i, m) in members.iter().enumerate() {
         let pos = if i + 1 == members.len() { "last" } else if i == 0 { "first" } else { "middle" };
@@ -74,14 +73,51 @@ pub fn check_c14(ctx: &mut Ctx, cfg: &Cfg, how: How) {
             ctx.class_dyn(format!("c14:invalid-member-{pos}"));
         }
     }
+    // What each member does *on its own* (the compositional reference): is it valid, what is its image,
+    // does it request padding. "Requests padding" is read off the member's own image (P bit of its last
+    // leaf packet), so that a member whose builder mislays its padding, or that is accepted although the
+    // model would not represent it, is that member's finding and not the compound's.
+    struct Fact {
+        err: Option<RtcpWriteError>,
+        image: Vec<u8>,
+        lens: Vec<usize>,
+        padded: bool,
+    }
+    let mut facts: Vec<Fact> = vec![];
+    for m in members {
+        let mh = How { owned: how.owned, wrap: how.wrap && !m.is_compound(), probe: how.probe };
+        match with_writer(m, mh, |w| calc(w)) {
+            WOut::Err(e) => facts.push(Fact { err: Some(e), image: vec![], lens: vec![], padded: false }),
+            WOut::Ok(_) => match member_iteration(m, mh) {
+                Ok((image, lens)) => {
+                    let padded = match lens.last() {
+                        Some(l) if *l >= 4 && image.len() >= *l => image[image.len() - *l] & 0x20 != 0,
+                        _ => false,
+                    };
+                    facts.push(Fact { err: None, image, lens, padded });
+                }
+                Err(_) => {
+                    ctx.class("c14:other-property:member-not-writable-alone");
+                    return;
+                }
+            },
+            _ => {
+                ctx.class("c14:other-property:member-size-calculation-panics");
+                return;
+            }
+        }
+    }
+    let any_invalid = facts.iter().any(|f| f.err.is_some());
+    let non_last_padded = facts.iter().enumerate().any(|(k, f)| f.padded && k + 1 != facts.len());
+    let must_fail = any_invalid || non_last_padded;
     let (r, bytes) = with_writer(cfg, how, |w| {
         let r = calc(w);
         let mut bytes = None;
         if let WOut::Ok(n) = &r {
             if *n <= (1 << 22) {
-                // zeroed (not dirty) buffers: a byte a member leaves unwritten is C17's / C07's finding and must not
-            // look like a difference between two images of the same member at different offsets / histories
-            let mut buf = vec![0u8; *n];
+                // zeroed (not dirty) buffers: a byte a member leaves unwritten is C17's / C07's finding and
+                // must not look like a difference between two images of the same member at different offsets
+                let mut buf = vec![0u8; *n];
                 let got = write(w, &mut buf);
                 bytes = Some((got, buf));
             }
@@ -91,26 +127,30 @@ pub fn check_c14(ctx: &mut Ctx, cfg: &Cfg, how: How) {
     match &r {
         WOut::WrongSize { .. } => unreachable!("calc never reports WrongSize"),
         WOut::Panic(p) => {
-            ctx.violate("calculate_size-panics", "compound", &drive::site_file(&p.site), case, "calculate_size returns", r.render());
+            ctx.violate("calculate_size-panics", "compound", &drive::site_file(&p.site), case, "calculate_size returns (it does for every member on its own)", r.render());
             return;
         }
         WOut::Err(e) => {
-            if viol.is_empty() {
+            if !must_fail {
                 ctx.violate(
                     "rejects-valid-list",
                     "compound",
                     &format!("err={}", variant_name(&format!("{e:?}"))),
                     case,
-                    "every member is valid and only the last requests padding: calculate_size succeeds",
+                    "every member is valid on its own and only the last requests padding: calculate_size succeeds",
                     format!("Err({e:?})"),
                 );
-            } else if !viol.iter().any(|v| v.named_by(e)) {
+            } else if !(facts.iter().any(|f| f.err.as_ref() == Some(e)) || (non_last_padded && matches!(e, RtcpWriteError::NonLastCompoundPacketPadding))) {
                 ctx.violate(
                     "error-is-a-members-error",
                     "compound",
                     &format!("err={}", variant_name(&format!("{e:?}"))),
                     case,
-                    format!("one of the members' errors or NonLastCompoundPacketPadding ({viol:?})"),
+                    format!(
+                        "one of the members' own errors {:?}{}",
+                        facts.iter().filter_map(|f| f.err.as_ref()).collect::<Vec<_>>(),
+                        if non_last_padded { " or NonLastCompoundPacketPadding" } else { "" }
+                    ),
                     format!("Err({e:?})"),
                 );
             } else {
@@ -120,10 +160,8 @@ pub fn check_c14(ctx: &mut Ctx, cfg: &Cfg, how: How) {
             return;
         }
         WOut::Ok(n) => {
-            if !viol.is_empty() {
-                // members that are accepted although unrepresentable are C16's findings; only the
-                // compound-specific rule is judged here
-                if viol.iter().any(|v| *v == repr::Rule::NonLastPadding) && viol.iter().all(|v| matches!(v, repr::Rule::NonLastPadding | repr::Rule::TotalSize(_))) {
+            if must_fail {
+                if non_last_padded && !any_invalid {
                     ctx.violate(
                         "accepts-non-last-padding",
                         "compound",
@@ -133,7 +171,14 @@ pub fn check_c14(ctx: &mut Ctx, cfg: &Cfg, how: How) {
                         format!("Ok({n})"),
                     );
                 } else {
-                    ctx.class("c14:skipped:member-accepted-though-unrepresentable");
+                    ctx.violate(
+                        "accepts-invalid-member",
+                        "compound",
+                        "invalid-member",
+                        case,
+                        format!("an error: a member is rejected on its own ({:?})", facts.iter().filter_map(|f| f.err.as_ref()).collect::<Vec<_>>()),
+                        format!("Ok({n})"),
+                    );
                 }
                 return;
             }
@@ -142,18 +187,10 @@ pub fn check_c14(ctx: &mut Ctx, cfg: &Cfg, how: How) {
             let mut sum = 0usize;
             let mut concat = vec![];
             let mut member_lens: Vec<usize> = vec![];
-            for m in members {
-                match member_iteration(m, how) {
-                    Ok((b, lens)) => {
-                        sum += b.len();
-                        concat.extend_from_slice(&b);
-                        member_lens.extend(lens);
-                    }
-                    Err(_) => {
-                        ctx.class("c14:skipped:member-unbuildable-alone");
-                        return;
-                    }
-                }
+            for f in &facts {
+                sum += f.image.len();
+                concat.extend_from_slice(&f.image);
+                member_lens.extend(f.lens.iter().copied());
             }
             ctx.class("c14:accepted");
             if n != sum {
